@@ -18,9 +18,9 @@
 #include <optional>
 
 enum ObjOp { OP_CONSTRUCT = 0, OP_SET, OP_SOLVE, OP_COPY_CTOR, OP_COPY_ASSIGN, OP_MOVE_CTOR, OP_MOVE_ASSIGN, OP_DESTROY,
-             OP_SELF_ASSIGN, OP_DEFAULT_CTOR, OP_SWAP, OP_CHAIN_ASSIGN, OP_PARALLEL_COPY, OP_COUNT };
+             OP_SELF_ASSIGN, OP_DEFAULT_CTOR, OP_SWAP, OP_CHAIN_ASSIGN, OP_PARALLEL_COPY, OP_SELF_MOVE, OP_COUNT };
 static const char* kOpNames[] = {"construct", "set", "solve", "copy_ctor", "copy_assign", "move_ctor",
-                                 "move_assign", "destroy", "self_assign", "default_ctor", "swap", "chain_assign", "parallel_copy"};
+                                 "move_assign", "destroy", "self_assign", "default_ctor", "swap", "chain_assign", "parallel_copy", "self_move"};
 
 static inline bool sameBits(double a, double b)
 {
@@ -713,6 +713,16 @@ Outcome runMachine(const std::vector<int>& cmds, const std::string& kindName)
                 applied              = true;
             }
             break;
+        case OP_SELF_MOVE:
+            // x = std::move(x): source and target are one object, so "observationally equal to its source at the moment
+            // of the operation" means unchanged (Vector and SparseLUSolver say so explicitly: "Handle self-assignment");
+            // this is what std::swap(x, x) and in-place compaction loops execute
+            if (alive[a] && !moved[a]) {
+                typename T::Obj& ref = *obj[a];
+                *obj[a]              = std::move(ref);
+                applied              = true;
+            }
+            break;
         }
         if (applied) {
             opsSig += std::to_string(op);
@@ -786,7 +796,8 @@ inline KV genObjectsCase()
                                                                                                  {1, OP_DEFAULT_CTOR},
                                                                                                  {2, OP_SWAP},
                                                                                                  {1, OP_CHAIN_ASSIGN},
-                                                                                                 {1, OP_PARALLEL_COPY}})),
+                                                                                                 {1, OP_PARALLEL_COPY},
+                                                                                                 {1, OP_SELF_MOVE}})),
                                  rc::gen::resize(rc::kNominalSize, rc::gen::inRange(0, 4)),
                                  rc::gen::resize(rc::kNominalSize, rc::gen::inRange(0, 4)),
                                  rc::gen::resize(rc::kNominalSize, rc::gen::inRange(0, 1000)));
